@@ -99,7 +99,7 @@ func canonicalGraphOf(g *oracle.G) (*oracle.G, error) {
 	var keys []string
 	var first *oracle.G
 	for _, rep := range []string{"dense", "sparse", "cocomp", "dense-bytes"} {
-		gr := reps(g)[rep]
+		gr := repOf(g, rep)
 		var p []int
 		if pn := try(func() { p = graph.CanonicalIsomorph(gr) }); pn != nil {
 			return nil, fmt.Errorf("CanonicalIsomorph(%s, n=%d %v) panicked: %v", rep, g.N, clipEdges(g), pn)
@@ -395,7 +395,7 @@ func checkAutCase(c autCase, rec *Rec) error {
 		var perm []int
 		var orbits disjoint.Set
 		var gens [][]int
-		if p := try(func() { perm, orbits, gens = graph.CanonicalIsomorphFull(reps(g)[rep], nil) }); p != nil {
+		if p := try(func() { perm, orbits, gens = graph.CanonicalIsomorphFull(repOf(g, rep), nil) }); p != nil {
 			return fmt.Errorf("CanonicalIsomorphFull(%s n=%d %v) panicked: %v", rep, g.N, clipEdges(g), p)
 		}
 		if err := checkAutData("CanonicalIsomorphFull("+rep+")", g, nil, perm, orbits, gens); err != nil {
